@@ -232,7 +232,8 @@ def variant(t, seed):
     import random
     r = random.Random(seed)
     pos = positions(t)
-    p, s = r.choice(pos)
+    calls = [ps for ps in pos if ps[1][0] == "call" and len(ps[1][3]) >= 2]
+    p, s = r.choice(calls) if calls and r.random() < 0.4 else r.choice(pos)
     if s[0] == "id":
         c = r.randrange(3)
         if c == 0:
@@ -246,6 +247,10 @@ def variant(t, seed):
         return replace_at(t, p, ("list", s[1][:1]))
     if s[0] == "lambda" and s[4] is not None:
         return replace_at(t, p, ("lambda", s[1], "any", None, None))
+    if s[0] == "call" and len(s[3]) >= 2:
+        return replace_at(t, p, ("call", s[1], s[2], tuple(reversed(s[3]))))   # same arguments, other order
+    if s[0] in ("bin", "cmp", "bool") and s[2] != s[3] and s[1] != "in":
+        return replace_at(t, p, (s[0], s[1], s[3], s[2]))
     return t
 
 
